@@ -74,7 +74,8 @@ type rlOp struct {
 	Short bool   `json:"short,omitempty"` // 90 s packet timeout instead of 3 h
 	Bad   bool   `json:"bad,omitempty"`   // (final) receiver is not an address -> error acknowledgement
 	Pick  int    `json:"pick,omitempty"`  // recv / ack / timeout: index into the eligible packets (fallback)
-	Ref   int    `json:"ref,omitempty"`   // recv / ack / timeout: 1-based ordinal of the send op whose packet is meant (0: use Pick)
+	ID    int    `json:"id,omitempty"`    // send / fsend: identifier of the transfer (>= 1)
+	Ref   int    `json:"ref,omitempty"`   // recv / ack / timeout: ID of the transfer whose packet is meant (0: use Pick)
 	Child bool   `json:"child,omitempty"` // with Ref: the packet forwarded by PFM when that packet was received
 	PS    int    `json:"ps,omitempty"`
 	PR    int    `json:"pr,omitempty"`
@@ -360,15 +361,16 @@ func newRLWorld(outer *testing.T, c rlCase) *rlWorld {
 		}
 		w.Block(k, 1)
 	}
-	// voucher pre-funding: every lane's token also exists on the other chain (account 1), plus a
-	// dust holder (account 3) that never sends, so a voucher supply never returns to zero.
+	// voucher pre-funding: every lane's token also exists on the other chain (accounts 1 and 2), plus
+	// a dust holder (account 3) that never sends, so a voucher supply never returns to zero (this
+	// excludes the recorded finding sigZeroCV by construction; NoDust demonstrates it).
 	far := now(w).Add(24 * time.Hour).UnixNano()
 	for lane := 0; lane < 4; lane++ {
 		k := lane / 2
 		l := rw.links[lane%2]
-		recv := [][2]int64{{1, c.Pre}, {2, c.Pre}}
+		recv := [][2]int64{{1, c.Pre}}
 		if !c.NoDust {
-			recv = append(recv, [2]int64{3, 5})
+			recv = append(recv, [2]int64{2, c.Pre}, [2]int64{3, 5})
 		}
 		for _, r := range recv {
 			p, res := sendTransfer(w, l, k, 1, sdk.NewInt64Coin(rlBase[k], r[1]), w.Addr(1-k, int(r[0])).String(), uint64(far), "")
@@ -546,10 +548,9 @@ func runC41(outer *testing.T) func(t rapid.TB, c rlCase, rec *vx.Case) {
 		}
 		fw := map[int]int{} // forwarded packet idx -> upstream packet idx
 		child := map[int]*sim.Pkt{}
-		var sendPk []*sim.Pkt // per send/fsend op (in order): its packet, nil when rejected
+		sendPk := map[int]*sim.Pkt{} // transfer ID -> its packet (absent when the send was rejected)
 		choose := func(op rlOp, el []*sim.Pkt) *sim.Pkt {
-			if op.Ref > 0 && op.Ref <= len(sendPk) && sendPk[op.Ref-1] != nil {
-				target := sendPk[op.Ref-1]
+			if target := sendPk[op.Ref]; op.Ref > 0 && target != nil {
 				if op.Child {
 					target = child[target.Idx]
 				}
@@ -609,7 +610,6 @@ func runC41(outer *testing.T) func(t rapid.TB, c rlCase, rec *vx.Case) {
 				bal := w.Balance(src, w.Addr(src, op.From), tr.denom()).Amount.Int64()
 				if bal <= 0 {
 					rec.Class("noop-no-balance")
-					sendPk = append(sendPk, nil)
 					continue
 				}
 				// amount placed relative to the model's remaining quota
@@ -661,7 +661,9 @@ func runC41(outer *testing.T) func(t rapid.TB, c rlCase, rec *vx.Case) {
 				allowed := m.wouldAllow(probe, true)
 				p, res := sendTransfer(w, l, src, op.From, sdk.NewCoin(tr.denom(), sdkmath.NewInt(amt)), receiver, uint64(to.UnixNano()), memo)
 				m.syncEpoch(src)
-				sendPk = append(sendPk, p)
+				if p != nil && op.ID > 0 {
+					sendPk[op.ID] = p
+				}
 				if p == nil {
 					m.rejected++
 					rec.Class("send-rejected")
@@ -896,37 +898,56 @@ func genC41(t *rapid.T) rlCase {
 	}
 	// transfers with their planned life cycles (each a sequence of ops that must stay in order)
 	var seqs [][]rlOp
-	nt := rapid.IntRange(2, 8).Draw(t, "ntransfers")
-	for i := 1; i <= nt; i++ {
-		op := rlOp{K: "send"}
-		if rapid.IntRange(0, 4).Draw(t, "fwd") == 0 {
+	nextID := 0
+	// transfer draws one transfer; h/out/fate fix the path, direction and fate when non-zero
+	transfer := func(fixed *cl, fwd int, fate string, small bool) []rlOp {
+		nextID++
+		id := nextID
+		op := rlOp{K: "send", ID: id}
+		if fwd == 1 || (fwd == 0 && rapid.IntRange(0, 4).Draw(t, "fwd") == 0) {
 			op.K = "fsend"
 		}
-		h := pickHot()
-		op.Lane = h.lane
-		op.Dir = h.chain // out of the limited chain ...
-		if rapid.IntRange(0, 3).Draw(t, "into") == 0 {
-			op.Dir = 1 - h.chain // ... or into it
+		var h cl
+		if fixed != nil {
+			h = *fixed
+			op.Dir = h.chain
+			if op.K == "fsend" {
+				op.Dir = 1 - h.chain // a forward is received (asynchronously) on the limited chain
+			}
+		} else {
+			h = pickHot()
+			op.Dir = h.chain // out of the limited chain ...
+			if rapid.IntRange(0, 3).Draw(t, "into") == 0 {
+				op.Dir = 1 - h.chain // ... or into it
+			}
 		}
+		op.Lane = h.lane
 		op.From = rapid.IntRange(1, 2).Draw(t, "from")
 		op.To = rapid.IntRange(1, 2).Draw(t, "to")
-		op.Mode = rapid.SampledFrom([]string{"remfrac", "remfrac", "remfrac", "rem", "rem", "frac", "abs"}).Draw(t, "mode")
-		switch op.Mode {
-		case "remfrac":
-			op.D = rapid.IntRange(1, 8).Draw(t, "eighths")
-		case "rem":
-			op.D = rapid.IntRange(-2, 2).Draw(t, "delta")
-		case "frac":
-			op.D = rapid.IntRange(1, 6).Draw(t, "num")
-		default:
-			op.D = rapid.IntRange(1, 60).Draw(t, "abs")
+		if small {
+			op.Mode, op.D = "remfrac", rapid.IntRange(1, 3).Draw(t, "eighths")
+		} else {
+			op.Mode = rapid.SampledFrom([]string{"remfrac", "remfrac", "remfrac", "rem", "rem", "frac", "abs"}).Draw(t, "mode")
+			switch op.Mode {
+			case "remfrac":
+				op.D = rapid.IntRange(1, 8).Draw(t, "eighths")
+			case "rem":
+				op.D = rapid.IntRange(-2, 2).Draw(t, "delta")
+			case "frac":
+				op.D = rapid.IntRange(1, 6).Draw(t, "num")
+			default:
+				op.D = rapid.IntRange(1, 60).Draw(t, "abs")
+			}
 		}
 		seq := []rlOp{op}
 		ref := func(k string, child bool) rlOp {
-			return rlOp{K: k, Ref: i, Child: child, Pick: rapid.IntRange(0, 7).Draw(t, "pick")}
+			return rlOp{K: k, Ref: id, Child: child, Pick: rapid.IntRange(0, 7).Draw(t, "pick")}
 		}
 		if op.K == "send" {
-			switch rapid.SampledFrom([]string{"timeout", "timeout", "errack", "errack", "ok", "ok", "recvonly", "none"}).Draw(t, "fate") {
+			if fate == "" {
+				fate = rapid.SampledFrom([]string{"timeout", "timeout", "errack", "errack", "ok", "ok", "recvonly", "none"}).Draw(t, "fate")
+			}
+			switch fate {
 			case "timeout":
 				seq[0].Short = true
 				seq = append(seq, ref("timeout", false))
@@ -939,7 +960,10 @@ func genC41(t *rapid.T) rlCase {
 				seq = append(seq, ref("recv", false))
 			}
 		} else {
-			switch rapid.SampledFrom([]string{"badfinal", "badfinal", "childtimeout", "ok", "timeout", "recvonly"}).Draw(t, "ffate") {
+			if fate == "" {
+				fate = rapid.SampledFrom([]string{"badfinal", "badfinal", "childtimeout", "ok", "timeout", "recvonly"}).Draw(t, "ffate")
+			}
+			switch fate {
 			case "badfinal":
 				seq[0].Bad = true
 				seq = append(seq, ref("recv", false), ref("recv", true), ref("ack", true), ref("ack", false))
@@ -954,10 +978,58 @@ func genC41(t *rapid.T) rlCase {
 				seq = append(seq, ref("recv", false))
 			}
 		}
+		return seq
+	}
+	windowEnd := func(h cl) []rlOp {
+		ps, pr, dur := genPct(t, "ps"), genPct(t, "pr"), rapid.IntRange(1, 3).Draw(t, "dur")
+		switch rapid.SampledFrom([]string{"update", "update", "readd", "reset", "epoch"}).Draw(t, "end") {
+		case "update":
+			return []rlOp{{K: "update", Chain: h.chain, Lane: h.lane, PS: max(ps, 20), PR: max(pr, 20), Dur: dur}}
+		case "readd":
+			return []rlOp{{K: "remove", Chain: h.chain, Lane: h.lane}, {K: "add", Chain: h.chain, Lane: h.lane, PS: max(ps, 20), PR: max(pr, 20), Dur: dur}}
+		case "reset":
+			return []rlOp{{K: "reset", Chain: h.chain, Lane: h.lane}}
+		default:
+			return []rlOp{{K: "epoch", Chain: 2, Hours: rapid.IntRange(1, 3).Draw(t, "hours"), D: rapid.IntRange(1, 3).Draw(t, "blocks")}}
+		}
+	}
+	nt := rapid.IntRange(1, 6).Draw(t, "ntransfers")
+	for i := 0; i < nt; i++ {
+		seqs = append(seqs, transfer(nil, 0, "", false))
+	}
+	// motifs: a transfer counted on a limited path, the end of that window, a second counted
+	// transfer in the next window, then the refund (send side) or the failing asynchronous
+	// acknowledgement (receive side) of the first one
+	for i, n := 0, rapid.IntRange(0, 2).Draw(t, "nmotifs"); i < n; i++ {
+		h := hot[rapid.IntRange(0, len(hot)-1).Draw(t, "mhot")]
+		var t1, t2 []rlOp
+		if rapid.IntRange(0, 3).Draw(t, "mrecv") == 0 {
+			t1 = transfer(&h, 1, rapid.SampledFrom([]string{"badfinal", "childtimeout"}).Draw(t, "mfate"), true)
+			// second transfer: a plain transfer into the limited chain on the same lane
+			t2 = transfer(&cl{1 - h.chain, h.lane}, -1, "", true)
+			t2[0].Dir = 1 - h.chain
+			seq := append([]rlOp{t1[0], t1[1]}, windowEnd(h)...) // send, recv (counted on h), window end
+			seq = append(seq, t2[0])
+			if len(t2) > 1 {
+				seq = append(seq, t2[1]) // its receive is what the new window counts
+			}
+			seq = append(seq, t1[2:]...)
+			if len(t2) > 2 {
+				seq = append(seq, t2[2:]...)
+			}
+			seqs = append(seqs, seq)
+			continue
+		}
+		t1 = transfer(&h, -1, rapid.SampledFrom([]string{"timeout", "errack"}).Draw(t, "mfate"), true)
+		t2 = transfer(&h, -1, "", true)
+		seq := append([]rlOp{t1[0]}, windowEnd(h)...)
+		seq = append(seq, t2[0])
+		seq = append(seq, t1[1:]...)
+		seq = append(seq, t2[1:]...)
 		seqs = append(seqs, seq)
 	}
 	// administration, epochs and free relay ops: singletons
-	na := rapid.IntRange(2, 9).Draw(t, "nadmin")
+	na := rapid.IntRange(1, 8).Draw(t, "nadmin")
 	kinds := []string{"epoch", "epoch", "update", "update", "update", "remove", "add", "add", "reset", "reset", "wl", "bl", "block", "recv", "ack", "timeout"}
 	for i := 0; i < na; i++ {
 		op := rlOp{K: rapid.SampledFrom(kinds).Draw(t, "kind")}
@@ -1013,7 +1085,7 @@ func TestC41(t *testing.T) {
 	vx.Check(t, vx.Prop[rlCase]{
 		ID: c41,
 		Rule: "2 chains, 2 ICS-20 v1 channels, tokens ufoo (native to chain 0) and ubar (native to chain 1) on 4 lanes; 1-2 rate limits (quota 1-100 %, 1-3 h) on (chain, lane) paths; " +
-			"2-8 transfers with planned life cycles (timeout / error ack / success / left pending; PFM round-trip forwards with asynchronous acks) sized around the model's remaining quota, merged in random order with 2-9 hour-epoch jumps, add/update/remove/reset by the authority, whitelist and blacklist toggles and free relay ops; " +
+			"1-6 transfers with planned life cycles (timeout / error ack / success / left pending; PFM round-trip forwards with asynchronous acks) sized around the model's remaining quota, 0-2 window-end motifs (counted transfer, update / remove+add / reset / epoch, second counted transfer, refund of the first), merged in random order with 1-8 hour-epoch jumps, add/update/remove/reset by the authority, whitelist and blacklist toggles and free relay ops; " +
 			"non-trivial = a packet counted in one window was refunded (timeout / error ack) after that window ended by an epoch or authority reset, update or removal, with >= 2 transfers counted; distinct by full history",
 		MinNTFrac: 0.12,
 		Assumptions: []string{
